@@ -552,7 +552,9 @@ def attribute(g, r):
         # clause tags: any span line (within contract lines) carrying a [Cxx.y] tag comment
         ctags = []
         for (ls, le, prim, label) in spans:
-            for ln in range(ls, le + 1):
+            # a tag narrows the attribution only when it sits on the FIRST or LAST line of the failing clause
+            # (tags on inner lines of a multi-line clause describe sub-parts of it)
+            for ln in sorted({ls, le}):
                 if 1 <= ln <= len(glines) and "//" in glines[ln - 1]:
                     tm = TAG_RE.search(glines[ln - 1].split("//", 1)[1])
                     if tm:
